@@ -47,6 +47,8 @@ def main():
         if attach.DET['recs']:
             attach.replay_recorded(random.Random(int(seed) * 7 + 1))
             attach.replay_recorded(random.Random(int(seed) * 7 + 2))
+            if not getattr(mod, 'NO_FRESH_REFERENCE', False):
+                attach.fresh_compare(ctx, random.Random(int(seed) * 7 + 3))
     d = ctx.dump()
     d['cover'] = cover.collected()
     with open(out, 'w') as f:
